@@ -36,6 +36,7 @@ func propC20(w *World, r *Report) {
 	}
 	checkPSName(w, r)
 	checkStaleSummary(w, r)
+	checkValidStore(w, r)
 	r.Floor("nameslots/once", 6)
 	r.Floor("nameslots/used", 6)
 }
@@ -598,4 +599,113 @@ func checkStaleSummary(w *World, r *Report) {
 	r.Floor("stalesummary", 1)
 	r.Floor("fullrange", 2)
 	_ = m
+}
+
+// checkValidStore: every name that makeNames / MakeGlyphNames-side code of
+// package cff assigns to a glyph is known to be a valid PostScript glyph
+// name at the assignment: the very string stored was tested with
+// names.IsValid (true branch), or it is a constant, the empty string, or a
+// fmt.Sprintf of a constant format made of name characters and %d verbs (the
+// generic names).  A test of a different string — the base name before a
+// suffix is appended — does not count.
+func checkValidStore(w *World, r *Report) {
+	r.Rule("validstore: in (*cff.Outlines).makeNames every non-constant string stored into a glyph's Name is the operand of a dominating names.IsValid test that succeeded (the same SSA value), or a Sprintf of a constant format consisting of name characters and integer verbs")
+	mk := w.Func("(*cff.Outlines).makeNames")
+	if mk == nil {
+		r.Fatal("(*cff.Outlines).makeNames does not resolve")
+		return
+	}
+	validOn := func(v ssa.Value, at *ssa.BasicBlock) bool {
+		for _, b := range mk.Blocks {
+			if len(b.Instrs) == 0 {
+				continue
+			}
+			ifi, ok := b.Instrs[len(b.Instrs)-1].(*ssa.If)
+			if !ok {
+				continue
+			}
+			cond := ifi.Cond
+			side := 0
+			if u, ok := cond.(*ssa.UnOp); ok && u.Op == token.NOT {
+				cond, side = u.X, 1
+			}
+			call, ok := cond.(*ssa.Call)
+			if !ok {
+				continue
+			}
+			cal := call.Call.StaticCallee()
+			if cal == nil || cal.Name() != "IsValid" || len(call.Call.Args) != 1 || call.Call.Args[0] != v {
+				continue
+			}
+			s := b.Succs[side]
+			if len(s.Preds) == 1 && (s == at || s.Dominates(at)) {
+				return true
+			}
+		}
+		return false
+	}
+	genericFormat := func(v ssa.Value) bool {
+		call, ok := v.(*ssa.Call)
+		if !ok {
+			return false
+		}
+		cal := call.Call.StaticCallee()
+		if cal == nil || cal.Pkg == nil || cal.Pkg.Pkg.Path() != "fmt" || cal.Name() != "Sprintf" || len(call.Call.Args) == 0 {
+			return false
+		}
+		c, ok := call.Call.Args[0].(*ssa.Const)
+		if !ok || c.Value == nil || c.Value.Kind() != constant.String {
+			return false
+		}
+		f := constant.StringVal(c.Value)
+		for i := 0; i < len(f); i++ {
+			ch := f[i]
+			switch {
+			case ch >= 'a' && ch <= 'z', ch >= 'A' && ch <= 'Z', ch == '.', ch == '_':
+			case ch == '%':
+				j := i + 1
+				for j < len(f) && f[j] >= '0' && f[j] <= '9' {
+					j++
+				}
+				if j >= len(f) || f[j] != 'd' {
+					return false
+				}
+				i = j
+			case ch >= '0' && ch <= '9' && i > 0:
+			default:
+				return false
+			}
+		}
+		return len(f) > 0 && len(f) < 16
+	}
+	n := 0
+	for _, b := range mk.Blocks {
+		for _, in := range b.Instrs {
+			st, ok := in.(*ssa.Store)
+			if !ok {
+				continue
+			}
+			fa, ok := st.Addr.(*ssa.FieldAddr)
+			if !ok || fieldName(fa) != "Name" {
+				continue
+			}
+			if bt, ok := st.Val.Type().Underlying().(*types.Basic); !ok || bt.Kind() != types.String {
+				continue
+			}
+			n++
+			key := r.MkKey("validstore", fnName(mk), "store to Name")
+			switch {
+			case func() bool { _, isC := st.Val.(*ssa.Const); return isC }():
+				r.OK("validstore", key, w.Pos(st.Pos()), "constant")
+			case validOn(st.Val, b):
+				r.OK("validstore", key, w.Pos(st.Pos()), "the stored string passed names.IsValid")
+			case genericFormat(st.Val):
+				r.OK("validstore", key, w.Pos(st.Pos()), "generic name from a constant format")
+			default:
+				r.Fail("validstore", key, w.Pos(st.Pos()), "the string stored into the glyph's Name is not the one that was tested with names.IsValid (a suffix appended after the test can make it longer than a PostScript name may be); the invalid name is discarded by the next call, so the naming is neither valid nor stable", nil)
+			}
+		}
+	}
+	r.Floor("validstore", 3)
+	_ = n
 }
